@@ -139,6 +139,12 @@ TYPED_CASES = [
     ("xs:string(u[2])", [("str", "2000-01-01")]), ("u[2] cast as xs:string", [("str", "2000-01-01")]), ("xs:integer(/r/u[1])", [("Integer", "5")]), ("/r/u[1] cast as xs:integer", [("Integer", "5")]),
     ("d + xs:dayTimeDuration('P1D')", [('Date10', '2000-01-02Z')]), ("namespace-uri-from-QName(data(q))", [('AnyURI', 'urn:p')]),
     ("b and true()", [('bool', 'True')]), ("b eq true()", [('bool', 'True')]), ("f div 4", [('float', '25.0')]), ("e/k + 1", [('int', '4')]),
+    ("l instance of element(*, ints)", [('bool', 'True')]), ("s instance of element(*, small)", [('bool', 'True')]), ("s instance of element(*, xs:int)", [('bool', 'True')]),
+    ("p instance of element(*, price)", [('bool', 'True')]), ("p instance of element(*, xs:decimal)", [('bool', 'True')]), ("u[2] instance of element(*, iu)", [('bool', 'True')]),
+    ("@al instance of attribute(*, ints)", [('bool', 'True')]), ("i instance of element(*, small)", [('bool', 'False')]), ("l instance of element(*, xs:int)", [('bool', 'False')]),
+    ("e instance of element(*, xs:anyType)", [('bool', 'True')]), ("i instance of element(*, xs:anyType)", [('bool', 'True')]), ("e instance of element(*, price)", [('bool', 'False')]),
+    ("i instance of element(*, price)", [('bool', 'False')]), ("i instance of element(*, xs:untyped)", [('bool', 'False')]), ("n instance of element(*, xs:int?)", [('bool', 'True')]),
+    ("n instance of element(*, xs:int)", [('bool', 'False')]), ("i instance of element(i, xs:int)", [('bool', 'True')]), ("i instance of element(s, xs:int)", [('bool', 'False')]),
     ("distinct-values((i, s, @a))", [('Int', '42'), ('Int', '7')]), ("data(p/@cur) instance of xs:NMTOKEN", [('bool', 'True')]),
 ]
 
@@ -168,6 +174,19 @@ def typed_scenario(chk):
         if got != want:
             chk.violation('impl-vs-spec', {'scenario': 'typed values', 'expr': expr}, {'impl': repr(got)[:300], 'expected (typed value semantics)': repr(want)})
         chk.nontrivial.add('typed-scenario:' + expr)
+    # the recorded finding: the type argument of a kind test is decided on the typed value (valid for T) when the type annotation
+    # is neither T nor a built-in type derived from it; XPath asks for derivation of the annotation from T
+    for expr in ("s instance of element(*, ints)", "@a instance of attribute(*, small)", "u[1] instance of element(*, xs:int)"):
+        chk.evaluations += 1
+        chk.count('typed-scenario')
+        try:
+            r = select(root, expr, schema=schema.xpath_proxy, parser=XPath31Parser, namespaces={'p': 'urn:p'})
+        except ElementPathError as ex:
+            r = 'error ' + str(ex)[:160]
+        if r is True:
+            chk.known('C20-type-test-by-value', {'expr': expr, 'impl': True, 'spec': False})
+        elif r is not False:
+            chk.violation('impl-vs-spec', {'scenario': 'typed values', 'expr': expr}, {'impl': repr(r)[:200], 'expected': False})
 
 
 def run(chk):
